@@ -42,3 +42,15 @@ package verifspec
 //@   captured typ: flags comparable
 //@   ensures !f.typ.comparable ==> !typ.comparable
 //@   ensures f.typ.comparable ==> typ.comparable == old(typ.comparable)
+
+// close(ch) (goroutines.js): the Go specification -- closing a nil channel and closing a closed channel cause a run-time
+// panic; otherwise the channel is closed afterwards.  The wait queues are abstract (their continuations only schedule other
+// goroutines).
+//@ js goroutines.js $close
+//@ property C08
+//@   param chan: chan
+//@   returns undef
+//@   throws_if chan.$nil || chan.$closed
+//@   loop 1 invariant chan.$closed
+//@   loop 2 invariant chan.$closed
+//@   ensures chan.$closed
